@@ -34,6 +34,10 @@ OBLIGATIONS = [
        'all parameters incl. negative bottom temperature (adiabat), constant and variable depth surfaces', tus=TUS_OCE, stubs=STO),
     ob('C05.oceanic.plate', 'h_c05_plate_model', [(0, 0), (0, 1), (3, 0), (3, 1)], ['plate model: 100-term plate cooling series with age = ridge distance / spreading velocity', 'constant-age plate model: 100-term plate cooling series with the configured age', OUT, 'end'],
        '100 series terms executed concretely, compared term by term (uninterpreted sin/exp/sqrt); constant and variable depth surfaces (the plate thickness of the formula is the model\'s max depth, the local surface value only bounds the range)', tus=TUS_OCE, stubs=STO + ['libm functions purely uninterpreted here (no axioms): the comparison is structural, term by term'], max_steps=3000000, libm_axioms=False),
+    ob('C05.slab.plate', 'h_c05_slab_plate', [(0,), (1,)], ['the model query stores only to fresh memory', 'slab plate model: Tm (1 + 2 (1 - 273.15/Tm) sum over all 500 terms of (-1)^n/(n pi) exp((R - sqrt(R^2 + n^2 pi^2)) x\') sin(n pi z\'))', 'end'],
+       'all 500 series terms executed and compared term by term (uninterpreted pow/exp/sin); replace operation, distances from and along the plane at least 2 eps (the protected-zero branches are outside), adiabatic heating off / on',
+       tus=['c05_slabplate.cc'] + BASE + ['features/subducting_plate_models/temperature/plate_model', 'features/subducting_plate_models/temperature/interface'], stubs=ST + ['libm functions purely uninterpreted here (no axioms): the comparison is structural, term by term'], max_steps=3000000, libm_axioms=False,
+       outside=['the other operations, the two protected-zero branches', 'convergence / truncation error of the series (real analysis)']),
     ob('C05.ridge', 'h_c05_ridge', [(0, 1), (1, 1)], ['distance is the Euclidean distance to the nearest point of the ridge polyline', 'distance is the smaller of the distances of the two longitude aliases\' nearest ridge points',
        'spreading velocity is interpolated at the chosen nearest ridge point (m/yr -> m/s)', 'end'], 'one ridge of 1..2 segments; Cartesian with the real distance, spherical with an uninterpreted great-circle distance (choice logic only)',
        tus=['c05_ridge.cc'] + BASE, native=False, stubs=['spherical distance_between_points_at_same_depth -> uninterpreted function of the compared point (its formula is C19.gc)'], cases_thorough=[(0, 1), (1, 1), (0, 2), (1, 2)], time_cap_thorough=900),
